@@ -1,1 +1,17 @@
 import Martian.Props.C13
+open Martian.Props.C13
+#print axioms facts_filter_walks_visit_both_branches
+#print axioms facts_verifiers_skip_api
+#print axioms facts_multierror_locked
+#print axioms run_append
+#print axioms run_invariant
+#print axioms fresh_tracks
+#print axioms query_is_failures_since_reset
+#print axioms install_fresh
+#print axioms query_is_failures_since_reset_of_config
+#print axioms reset_restores_initial
+#print axioms query_after_reset
+#print axioms api_requests_not_counted
+#print axioms query_idempotent
+#print axioms report_depth_one
+#print axioms single_verifier_report
